@@ -118,6 +118,25 @@ func untypedListTag(tag byte) bool {
 	return tag == _listFixedUntypedTag || tag == _listVariableUntypedTag || listFixedUntypedLenTag(tag)
 }
 
+// _listAllocMax is the number of elements allocated up front for a fixed-length list.
+// A longer list grows while its elements are read, so that a length merely declared
+// in the input can't make the decoder allocate memory the input does not pay for.
+const _listAllocMax = 4096
+
+func listAllocLen(length int) int {
+	if length > _listAllocMax {
+		return _listAllocMax
+	}
+	return length
+}
+
+func listGrowLen(have, length int) int {
+	if have*2 < length {
+		return have * 2
+	}
+	return length
+}
+
 // write as fixed-length list
 func (e *Encoder) writeList(data interface{}) (int, error) {
 	if bt, ok := data.([]byte); ok {
@@ -224,7 +243,7 @@ func (d *Decoder) readTypedList(tag byte) (interface{}, error) {
 		return nil, newCodecError("readTypedList", "can't find list type %s", listTyp)
 	}
 
-	aryValue := reflect.MakeSlice(aryType, length, length)
+	aryValue := reflect.MakeSlice(aryType, listAllocLen(length), listAllocLen(length))
 	holder := d.addDecoderRef(aryValue)
 
 	for j := 0; j < length || isVariableArr; j++ {
@@ -245,6 +264,13 @@ func (d *Decoder) readTypedList(tag byte) (interface{}, error) {
 			aryValue = reflect.Append(aryValue, v)
 			holder.change(aryValue)
 		} else {
+			if j >= aryValue.Len() {
+				// grow as elements really arrive, up to the declared length
+				grown := reflect.MakeSlice(aryType, listGrowLen(j, length), listGrowLen(j, length))
+				reflect.Copy(grown, aryValue)
+				aryValue = grown
+				holder.change(aryValue)
+			}
 			SetValue(aryValue.Index(j), v)
 		}
 	}
@@ -282,7 +308,7 @@ func (d *Decoder) readUntypedList(tag byte) (interface{}, error) {
 		return nil, nil
 	}
 
-	ary := make([]interface{}, length)
+	ary := make([]interface{}, listAllocLen(length))
 	aryValue := reflect.ValueOf(ary)
 	holder := d.addDecoderRef(aryValue)
 
@@ -299,6 +325,12 @@ func (d *Decoder) readUntypedList(tag byte) (interface{}, error) {
 			aryValue = reflect.Append(aryValue, EnsureRawValue(it))
 			holder.change(aryValue)
 		} else {
+			if j >= len(ary) {
+				// grow as elements really arrive, up to the declared length
+				ary = append(ary, make([]interface{}, listGrowLen(j, length)-j)...)
+				aryValue = reflect.ValueOf(ary)
+				holder.change(aryValue)
+			}
 			ary[j] = it
 		}
 	}
